@@ -332,3 +332,32 @@ def main(pid, fn):
         if not a.keep:
             ctx.cleanup()
     return rc
+
+
+def parallel(jobs, max_workers=6):
+    """Run callables concurrently; re-raise the first Infra."""
+    from concurrent.futures import ThreadPoolExecutor
+    with ThreadPoolExecutor(max_workers=max_workers) as ex:
+        futs = [ex.submit(j) for j in jobs]
+        return [f.result() for f in futs]
+
+
+def replay(ctx, sub, beh, name, extra_args, timeout=3000):
+    """Run a replay subcommand of the harness over a behaviour file and judge the result."""
+    out = os.path.join(ctx.work, "res_%s.json" % name)
+    run_vh(ctx, [sub, "--in", beh, "--out", out] + extra_args, timeout=timeout)
+    r = load_result(ctx, out)
+    r["config"] = " ".join(extra_args)
+    return r
+
+
+def account(ctx, results):
+    """Judge a list of replay results; returns totals."""
+    tot = dict(behaviours=0, steps=0, nontrivial=0)
+    for r in results:
+        judge_result(ctx, r)
+        tot["behaviours"] += r["behaviours"]
+        tot["steps"] += r["steps"]
+        tot["nontrivial"] += r["distinct_nontrivial"]
+    ctx.traces_validated += tot["behaviours"]
+    return tot
